@@ -163,10 +163,26 @@ def inject(spec, work_repo):
         if item.kind != "fn": raise ToolError("LOST-ANCHOR %s :: %s is not a fn" % (rel, f["path"]))
         text = src[item.start:item.end]
         clauses = f.get("contract", [])
+        # the clauses name the parameters; `params` records the names they were written with.  If the function's parameters have
+        # been renamed (same count), the clauses follow POSITIONALLY - callers pass by position, so this is the same contract.
+        renamed = {}
+        if clauses and f.get("params"):
+            msig = re.search(r"\bfn\s+\w+\s*(?:<[^>]*>)?\s*\(([^)]*)\)", text, re.S)
+            cur = []
+            if msig:
+                for part in msig.group(1).split(","):
+                    mm = re.match(r"\s*(?:mut\s+)?([A-Za-z_]\w*)\s*:", part)
+                    if mm: cur.append(mm.group(1))
+            if len(cur) == len(f["params"]) and cur != f["params"]:
+                renamed = dict((a, b) for a, b in zip(f["params"], cur) if a != b)
+                def ren(c):
+                    for a, b in renamed.items(): c = re.sub(r"\b%s\b" % re.escape(a), "\x00" + b, c)
+                    return c.replace("\x00", "")
+                clauses = [ren(c) for c in clauses]
         if clauses:
             edits.append((item.start, "".join("#[cfg_attr(kani, %s)] " % c for c in clauses)))
         functions.append({"file": rel, "path": f["path"], "lines": [extract.line_of(src, item.start), extract.line_of(src, item.end)],
-                          "sha256": hashlib.sha256(text.encode()).hexdigest()[:16], "rewrites": [], "under_contract": bool(clauses),
+                          "sha256": hashlib.sha256(text.encode()).hexdigest()[:16], "rewrites": ([{"id": "R16", "contract_follows_renamed_parameters": renamed}] if renamed else []), "under_contract": bool(clauses),
                           "contract": clauses, "trusted": False, "backend": "kani", "serves": f.get("serves", [])})
     out = src
     for pos, ins in sorted(edits, reverse=True):
